@@ -105,6 +105,13 @@ CLAIMS["C19"] = dict(level="model_checking", tech="TLA+ model of the two accumul
          "instruction/address trace of the function (lackey) must be identical for different content patterns while memcheck, with both regions marked "
          "undefined, must report no decision depending on them - a monitor for the 2-safety property the model states",
     ref="§3 C19", note="data independence is observed, per n in a list (quick: 15 sizes to 64, thorough: 0..69 and 8 larger), on gcc -O0/-O2/-O3 x86-64 builds of the working tree; instruction- and address-level only (no micro-architectural timing); trusted: valgrind's definedness tracking and lackey trace, nm symbol ranges, harness/hts.c")
+CLAIMS["C18"] = dict(level="exploration", tech="TLA+ dead-store-elimination model and configuration matrix (Erase.tla) checked / enumerated by TLC + one compiled client per matrix cell observed out-of-band + TLC trace validation (TraceErase.tla, EraseContract.tla)",
+    text="Erase.tla shows in the model why the property depends on the caller's build: an erase made of plain stores visible to the optimiser is the only "
+         "cell in which dead-store elimination may remove it; the matrix optimisation level x link mode (library as shipped / rebuilt with -flto / shared) x "
+         "function x storage (stack, heap-then-free, static) x constant or run-time parameters x n x offset is enumerated by TLC, each cell is a real "
+         "client program compiled from the working tree in which the buffer is dead after the call, and a separately compiled observer reads the bytes "
+         "after the frame is gone / when the block reaches free / at exit; every observation is judged against the contract (fill value in exactly the addressed bytes)",
+    ref="§3 C18", note="an exploration of concrete build configurations (gcc 12, x86-64; quick: O0/O2/O3 x static/LTO, thorough: O0..Os x static/LTO/shared), not a proof about all compilers; the decision is by observing compiled programs - the TLA+ part is the optimiser model, the matrix and the judge; trusted: the observer's out-of-band read, harness/erase/*.c")
 
 NOT_YET = {
 }
